@@ -15,7 +15,7 @@ PKG = "vcr/verifier"
 HARNESS = ["vcr/verifier/zz_verif_c01_test.go"]
 
 REQUIRED = ["check_order_irrelevant_for_accept", "valid_only_if", "key_is_from_the_issuers_document",
-            "vp_valid_only_if", "vp_every_other_credential_is_signature_checked", "fact_check_signature_flag_is_per_credential", "vp_check_order_irrelevant_for_accept", "empty_presentation_holder_is_not_checked",
+            "vp_valid_only_if", "vp_every_other_credential_is_signature_checked", "fact_check_signature_flag_is_per_credential", "untrust_is_effective", "untrusted_issuer_is_rejected", "fact_trust_store_code", "vp_check_order_irrelevant_for_accept", "empty_presentation_holder_is_not_checked",
             "tamper_evident", "tamper_evident_jwt", "tamper_evident_vp", "undefined_member_unsigned",
             "own_output_verifies_ld", "own_output_verifies_jwt", "own_presentation_verifies",
             "fact_verify_check_sequence", "fact_doVerifyVP_check_sequence", "fact_jsonldProof_check_sequence",
@@ -142,7 +142,7 @@ def run(ctx):
     def replay_text(i):
         """state-changing ops before op i + op i itself"""
         start = max([k for k in range(i) if ops[k].get("op") == "reset"] + [-1]) + 1
-        pre = [ops_raw[k] for k in range(start, i) if ops[k].get("op") in ("world", "trust", "revoke")]
+        pre = [ops_raw[k] for k in range(start, i) if ops[k].get("op") in ("world", "trust", "trustfile", "restart", "revoke")]
         b = bases.get(ops[i].get("base"))
         if b and b[0] != i:
             pre.append(ops_raw[b[0]])   # the unmodified document the mutant is compared with
@@ -262,6 +262,8 @@ def run(ctx):
             state["hist"] = op["hist"]
         elif k == "trust":
             (state["trust"].add if op["add"] else state["trust"].discard)((op["type"], op["issuer"]))
+        elif k == "trustfile":   # the property's view of trust: a set — after untrusting nothing of the pair is left, whatever the file held
+            state["trust"] = {(t, i) for t, l in op["content"].items() for i in l}
         elif k == "revoke" and op.get("registered"):
             state["revoked"].add(op["id"])
         elif k in ("vc", "vp") and impl[i].startswith("ok") and op.get("at") is not None and op.get("doc"):
